@@ -166,6 +166,28 @@ pub fn case_state(va: &dyn VariantApi, gs: &GenState, st: &CaseStats) -> Result<
         }
     }
     setters_vs_model(va, g.as_ref(), &mg, fnv_mix(gs.len as u64, gs.buckets.iter().fold(7u64, |h, &b| fnv_mix(h, b as u64))), &format!("{} on injected state (n={})", v.name, total), st)?;
+    // the injected state is a state like any other: feeding more data from it follows the
+    // reference too (32-bit bucket counters wrap, as the reference's `unsigned int` ones do)
+    {
+        let digest = fnv_mix(gs.len as u64, gs.buckets.iter().fold(7u64, |h, &b| fnv_mix(h, b as u64)));
+        let mut rng = gens::Xs::new(digest);
+        let more: Vec<u8> = (0..64 + (digest % 700) as usize).map(|_| if digest & 1 == 0 { rng.byte() } else { rng.byte() & 3 }).collect();
+        let mut g2 = va.gen_from_state(gs).ok_or("hook gen_from_state not available")?;
+        let mut m2 = model_from_state(v, gs);
+        g2.update(&more);
+        m2.update(&more);
+        for oi in [Opts::DEFAULT_INDEX, Opts::PERMISSIVE_INDEX, 1, 3] {
+            st.eval();
+            compare_result(
+                &format!("{} finalize_with_options({}) on injected state (n={}) followed by {} more bytes", v.name, opt_name(oi), total, more.len()),
+                &g2.finalize(Opts::from_index(oi)),
+                &m2.finalize(Opts::from_index(oi)),
+            )?;
+        }
+        if gs.buckets[..v.buckets].iter().any(|&b| b > u32::MAX - 4096) {
+            st.class("update from a state with a bucket counter within 4096 of u32::MAX");
+        }
+    }
     // finalize() is finalize_with_options(default) on every state, not only on small inputs
     let m0 = mg.finalize(Opts::from_index(Opts::DEFAULT_INDEX));
     compare_result(&format!("{} finalize() on injected state (n={})", v.name, total), &g.finalize_default(), &m0)?;
